@@ -86,3 +86,30 @@ def rotated_helper(chk, ctx, rule):
             rot = [unversion(c.term) for c in p.calls() if c.term[0] == 'mcall' and c.term[2] == 'rotate']
             ok = r == T.spec('deque(values)') and rot == [('mcall', r, 'rotate', (('name', 'count'),), ())]
     chk.ob(rule, 'utilities.rotated', ok, fi.loc, 'rotated(values, n) is the same elements rotated by n')
+
+
+class Refile:
+    """runs a rule family of one property under the rule names of another property that states the same clause
+    (e.g. the amounts of C02 are the pot arithmetic of C01); floors of the original family are not re-registered"""
+
+    def __init__(self, chk, mapping: dict):
+        self.chk = chk
+        self.mapping = mapping
+
+    def _name(self, rule):
+        for src, dst in self.mapping.items():
+            if rule == src or rule.startswith(src + ':'):
+                return dst + rule[len(src):]
+        return None
+
+    def ob(self, rule, *a, **k):
+        new = self._name(rule)
+        if new is None:
+            return True
+        return self.chk.ob(new, *a, **k)
+
+    def floor(self, rule, n):
+        return None
+
+    def __getattr__(self, name):
+        return getattr(self.chk, name)
